@@ -736,12 +736,32 @@ def shard_join(acc, shard, nshards, params):
     drive(acc, "join", case_join, gen(), shard, nshards, family="join[%s]" % name)
 
 
-CASES = {"transform": case_transform, "lazy": case_lazy, "join": case_join}
+# ---------------------------------------------------------------------------
+# second-generation transforms (lead): see mc/compose.py
+
+def case_compose(case):
+    from mc import compose
+    return compose.case_compose(case, "C14")
+
+
+def shard_compose(acc, shard, nshards, params):
+    from mc import compose
+    n0, maxpts, deadline = params
+    core.drive(acc, "compose", case_compose, compose.cases(n0, maxpts), shard, nshards,
+               family="compose[ranks=%d,<=%d points]" % (n0, maxpts), deadline=deadline)
+
+
+CASES = {"transform": case_transform, "lazy": case_lazy, "join": case_join, "compose": case_compose}
 
 
 def run(ctx):
     import time
     q = ctx.quick
+    import time as _t
+    if not getattr(ctx, "only", None) or "compose" in ctx.only:
+        ctx.shards(shard_compose, (2, 3 if q else 4, _t.time() + (60 if q else 600)))
+        ctx.shards(shard_compose, (3, 1 if q else 2, _t.time() + (60 if q else 900)))
+
     if q:
         tplan = [("T2(2,2)", "full", None), ("T2(2,3;-v)", "shapefmt", None), ("T2(3,2;-v)", "shapefmt", None),
                  ("T3c(2,2,2;<=2|8)", "shapefmt", None)]
